@@ -183,4 +183,209 @@ theorem ra_hour_field_can_be_24 : ra_print 359.9999 0 = .ok (.dms 24 0 0) ∧ ¬
   · exact printsDms_iff (by decide +kernel)
   · simp [fieldsBelow]
 
+/-! ### Growth round: decimals shown, sign of the print, independence of the tolerance, split after `to_positive` -/
+
+/-- "any number of decimals": with `n_dec ≥ 0` the seconds handed to the formatter are a whole multiple of
+    `10 ** -n_dec` (so at most `n_dec` decimals are shown), for every value. -/
+theorem seconds_have_n_decimals (x : ℚ) (n : ℤ) (h : |x| < 360) (hn : 0 ≤ n) :
+    ∃ k : ℤ, (dms_fields x n).2.2.1 = (k : ℚ) / pow10 n := by
+  obtain ⟨d, m, s, sg, _, _, _, _, hs, _⟩ := dms_fields_full (L := 360) (le_refl _) (by exact_mod_cast h) n
+  rcases dms_fields_seconds_form hs hn with e | e
+  · exact ⟨0, by rw [e]; simp⟩
+  · rw [e]; exact proundn_multiple s n
+
+example : (dms_fields (12 + 34 / 60 + 56.789 / 3600) 2).2.2.1 = 5679 / pow10 2 := by decide +kernel
+
+/-- The sign a reader sees is the sign of the value: a positive Angle never prints negative and a
+    negative one never prints positive (a print of 0 has no sign), for every `n_dec`. -/
+theorem print_sign (x : ℚ) (n : ℤ) (h : |x| < 360) :
+    (0 < x → 0 ≤ readback (dms_print x n)) ∧ (x < 0 → readback (dms_print x n) ≤ 0) := by
+  obtain ⟨d, m, s, sg, D, M, S, _, _, hf, hsg, d0, _, m0, _, s0, _, hv, D0, _, _, M0, _, S0, _, _, _⟩ :=
+    dms_fields_full (L := 360) (le_refl _) (by exact_mod_cast h) n
+  obtain ⟨_, h2, _⟩ := dms_print_spec hf D0 M0 S0 hsg
+  have hd : (0 : ℚ) ≤ d := by exact_mod_cast d0
+  have hm : (0 : ℚ) ≤ m := by exact_mod_cast m0
+  have hD : (0 : ℚ) ≤ D := by exact_mod_cast D0
+  have hM : (0 : ℚ) ≤ M := by exact_mod_cast M0
+  have hb : (0 : ℚ) ≤ (d : ℚ) + (m : ℚ) / 60 + s / 3600 := by positivity
+  have hB : (0 : ℚ) ≤ (D : ℚ) + (M : ℚ) / 60 + S / 3600 := by positivity
+  rw [h2]
+  rcases hsg with e | e
+  · subst e
+    exact ⟨fun _ => by linarith, fun hx => by linarith⟩
+  · subst e
+    exact ⟨fun hx => by linarith, fun _ => by linarith⟩
+
+example : readback (dms_print 0 3) = 0 ∧ readback (dms_print (-1 / 7200000) 2) = 0 := by decide +kernel
+
+/-- The printed forms depend on the Angle's value only, not on its comparison tolerance (the carry
+    thresholds are the module constant `TOL`). -/
+theorem print_independent_of_tolerance (a b : Angle) (n : ℤ) (h : a.deg = b.deg) :
+    angle_dms_print a n = angle_dms_print b n ∧ angle_ra_print a n = angle_ra_print b n := by
+  unfold angle_dms_print angle_ra_print; rw [h]; exact ⟨rfl, rfl⟩
+
+example : angle_dms_print ⟨10 + 59.7 / 3600, 0.5⟩ 0 = angle_dms_print ⟨10 + 59.7 / 3600, TOL⟩ 0 := rfl
+
+/-- The split of the positive form is the split of the NEW value: for a negative Angle,
+    `a.to_positive().dms_tuple()` has sign +1 and recombines to `a + 360` (no stale decomposition in
+    the functional model; object-level memoisation is C20's subject). -/
+theorem split_after_to_positive (a : Angle) (h : |a.deg| < 360) (hneg : a.deg < 0) :
+    ∃ (d m : ℤ) (s : ℚ), dms_tuple (to_positive a) = (d, m, s, 1) ∧ 0 ≤ d ∧ d < 360 ∧ 0 ≤ m ∧ m < 60 ∧
+      0 ≤ s ∧ s < 60 ∧ (d : ℚ) + (m : ℚ) / 60 + s / 3600 = a.deg + 360 := by
+  have habs := abs_lt.mp h
+  have hp : (to_positive a).deg = a.deg + 360 := by
+    unfold to_positive
+    have hp : plt a.deg 0 = true := by rw [plt_iff]; exact hneg
+    have hd : ¬ (ple 360.0 (360.0 - pabs a.deg) = true) := by
+      rw [ple_iff, pabs_eq, abs_of_neg hneg]; norm_num; linarith
+    rw [if_pos hp]; simp only [hd]
+    rw [pabs_eq, abs_of_neg hneg]; norm_num; ring
+  have hr : |(to_positive a).deg| < 360 := by rw [hp, abs_lt]; constructor <;> linarith [habs.1]
+  have hpos : 0 ≤ (to_positive a).deg := by rw [hp]; linarith [habs.1]
+  have hsplit := deg2dms_of_lt hr
+  obtain ⟨d0, d1, m0, m1, s0, s1, hrec⟩ := split_spec (L := 360) (abs_nonneg _) (by exact_mod_cast hr)
+  refine ⟨_, _, _, ?_, d0, d1, m0, m1, s0, s1, ?_⟩
+  · unfold dms_tuple; rw [hsplit, if_pos hpos]
+  · rw [hrec, abs_of_nonneg hpos, hp]
+
+/-- The minutes -> degrees carry is taken when the seconds carry produced it, for either sign, and the
+    degrees field grows by one (it is the unsigned field). -/
+example : dms_fields (10 + 59 / 60 + 59.9999 / 3600) 0 = (11, 0, 0, 1) ∧
+    dms_fields (-(10 + 59 / 60 + 59.9999 / 3600)) 0 = (11, 0, 0, -1) ∧
+    dms_fields (-(10 + 59 / 60 + 59.9999 / 3600)) 4 = (10, 59, 59.9999, -1) := by decide +kernel
+
+/-- With no rounding requested (`n_dec < 0`) `dms_str` prints exactly the fields `dms_tuple` returns,
+    for every value. -/
+theorem fields_unrounded_eq_tuple (a : Angle) (n : ℤ) (hn : n < 0) : dms_fields a.deg n = dms_tuple a := by
+  unfold dms_fields dms_tuple
+  have : ¬ (n ≥ 0) := by omega
+  simp only [this, if_false]
+
+/-- Splitting and rebuilding is the identity: for every Angle value, feeding the pieces of `dms_tuple`
+    (each multiplied by the returned sign, as `Angle(sign*d, sign*m, sign*s)` does) back through
+    `dms2deg` returns exactly the value — the two formulas of the library are inverse to each other,
+    including `(0, -m, s)` for values in (-1, 0) and the all-zero split. -/
+theorem rebuild_from_split (x : ℚ) (h : |x| < 360) :
+    ∃ (d m : ℤ) (s sg : ℚ), deg2dms x = (d, m, s, sg) ∧ dms2deg (sg * d) (sg * m) (sg * s) = x := by
+  obtain ⟨d, m, s, sg, _, _, _, _, hs, _, hsg, d0, d1, m0, m1, s0, s1, hv, _⟩ :=
+    dms_fields_full (L := 360) (le_refl _) (by exact_mod_cast h) 0
+  refine ⟨d, m, s, sg, hs, ?_⟩
+  have hd : (0 : ℚ) ≤ d := by exact_mod_cast d0
+  have hm : (0 : ℚ) ≤ m := by exact_mod_cast m0
+  have hd1 : (d : ℚ) ≤ 359 := by exact_mod_cast (by omega : d ≤ 359)
+  have hm1 : (m : ℚ) ≤ 59 := by exact_mod_cast (by omega : m ≤ 59)
+  set V : ℚ := (d : ℚ) + (m : ℚ) / 60 + s / 3600 with hV
+  have hV0 : 0 ≤ V := by rw [hV]; positivity
+  have hV1 : V < 360 := by rw [hV]; linarith
+  obtain ⟨P, hP, hP0, hP1, k, hk⟩ := reduce_dms_value (sg * d) (sg * m) (sg * s)
+  have habs : |sg * (d : ℚ)| + |sg * (m : ℚ)| / 60 + |sg * s| / 3600 = V := by
+    have e : |sg| = 1 := by rcases hsg with e | e <;> rw [e] <;> norm_num
+    rw [abs_mul, abs_mul, abs_mul, e, abs_of_nonneg hd, abs_of_nonneg hm, abs_of_nonneg s0]; ring
+  rw [habs] at hk
+  have hk0 : k = 0 := by
+    have h1 : (360 : ℚ) * k < 360 := by linarith
+    have h2 : -(360 : ℚ) < 360 * k := by linarith
+    have h3 : (k : ℚ) < 1 := by linarith
+    have h4 : (-1 : ℚ) < k := by linarith
+    have h5 : k < 1 := by exact_mod_cast h3
+    have h6 : -1 < k := by exact_mod_cast h4
+    omega
+  rw [hk0] at hk
+  have hPV : P = V := by push_cast at hk; linarith
+  rw [hP, hPV, ← hv]
+  by_cases hz : V = 0
+  · rw [hz]; ring
+  · congr 1
+    have hVpos : 0 < V := lt_of_le_of_ne hV0 (Ne.symm hz)
+    unfold dmsSign
+    rcases hsg with e | e
+    · subst e
+      rw [if_neg]; push Not
+      exact ⟨by linarith, by linarith, by linarith⟩
+    · subst e
+      rw [if_pos]
+      by_contra hcon
+      push Not at hcon
+      obtain ⟨c1, c2, c3⟩ := hcon
+      have : V = 0 := by rw [hV]; nlinarith
+      exact hz this
+
+example : dms2deg 0 (-5) (-30) = -(5 / 60 + 30 / 3600) ∧ deg2dms (-(5 / 60 + 30 / 3600)) = (0, 5, 30, -1) := by
+  decide +kernel
+
+/-- The rounding carry fires exactly at the boundary (for `0 ≤ n_dec ≤ 10`): if the seconds rounded at
+    `n_dec` are not 60 the printed fields are the split fields with the rounded seconds, untouched;
+    if they are exactly 60 the seconds show 0 and minutes / degrees advance by one minute with the
+    wrap-arounds `60' -> 1d` and `360d -> 0d` — for EVERY value, including the boundary values themselves. -/
+theorem carry_exactly_at_sixty (x : ℚ) (n : ℤ) (h : |x| < 360) (hn : 0 ≤ n) (h10 : n ≤ 10) :
+    ∃ (d m : ℤ) (s sg : ℚ), deg2dms x = (d, m, s, sg) ∧
+      (proundn s n ≠ 60 → dms_fields x n = (d, m, proundn s n, sg)) ∧
+      (proundn s n = 60 → dms_fields x n = ((d + (m + 1) / 60) % 360, (m + 1) % 60, 0, sg)) := by
+  obtain ⟨d, m, s, sg, D, M, S, e, hs, hf, hsg, d0, d1, m0, m1, s0, s1, hv, D0, D1, _, M0, M1, S0, S1, _, hpos⟩ :=
+    dms_fields_full (L := 360) (le_refl _) (by exact_mod_cast h) n
+  obtain ⟨_, he0, hval⟩ := hpos hn
+  rw [he0 h10, add_zero] at hval
+  have hform := dms_fields_seconds_form hs hn
+  rw [hf] at hform
+  simp only at hform
+  have hs'0 := proundn_nonneg s0 n
+  have hs'60 : proundn s n ≤ ((60 : ℤ) : ℚ) := proundn_le_int (by push_cast; linarith) hn
+  push_cast at hs'60
+  have hDq : (0 : ℚ) ≤ (D : ℚ) := by exact_mod_cast D0
+  have hMq : (0 : ℚ) ≤ (M : ℚ) := by exact_mod_cast M0
+  have hdq : (d : ℚ) ≤ 359 := by exact_mod_cast (by omega : d ≤ 359)
+  have hmq : (m : ℚ) ≤ 59 := by exact_mod_cast (by omega : m ≤ 59)
+  have hd0q : (0 : ℚ) ≤ (d : ℚ) := by exact_mod_cast d0
+  have hm0q : (0 : ℚ) ≤ (m : ℚ) := by exact_mod_cast m0
+  refine ⟨d, m, s, sg, hs, fun hne => ?_, fun heq => ?_⟩
+  · -- no carry: the rounded seconds are below 60, so both sides are canonical and equal field by field
+    have hlt : proundn s n < 60 := lt_of_le_of_ne hs'60 hne
+    have hval' : (D : ℚ) + (M : ℚ) / 60 + S / 3600 = (d : ℚ) + (m : ℚ) / 60 + proundn s n / 3600 := by
+      rcases hval with hv' | hv'
+      · exact hv'
+      · exfalso
+        have : (0 : ℚ) ≤ (D : ℚ) + (M : ℚ) / 60 + S / 3600 := by positivity
+        linarith
+    have hS : S = proundn s n := by
+      rcases hform with e0 | e0
+      · -- S = 0: then 3600 (D - d) + 60 (M - m) = s', a multiple of 60 in [0, 60): s' = 0
+        have hj : proundn s n = 60 * (((60 * (D - d) + (M - m) : ℤ)) : ℚ) := by
+          rw [e0] at hval'; push_cast; linarith
+        set j : ℤ := 60 * (D - d) + (M - m) with hjdef
+        have hj1 : (j : ℚ) < 1 := by linarith
+        have hj0 : (-1 : ℚ) < j := by linarith
+        have : j = 0 := by
+          have a1 : j < 1 := by exact_mod_cast hj1
+          have a2 : -1 < j := by exact_mod_cast hj0
+          omega
+        rw [hj, this, e0]; simp
+      · exact e0
+    have hDM : 60 * D + M = 60 * d + m := by
+      have : (60 : ℚ) * D + M = 60 * d + m := by rw [hS] at hval'; linarith
+      exact_mod_cast this
+    have hM : M = m := by omega
+    have hD : D = d := by omega
+    rw [hf, hD, hM, hS]
+  · -- carry: seconds show 0, one minute is added with wrap-arounds
+    have hS : S = 0 := by
+      rcases hform with e0 | e0
+      · exact e0
+      · exfalso; rw [e0, heq] at S1; exact lt_irrefl _ S1
+    rw [hS, heq] at hval
+    have hDM : 60 * D + M = 60 * d + m + 1 ∨ 60 * D + M = 60 * d + m + 1 - 21600 := by
+      rcases hval with hv' | hv'
+      · left
+        have : (60 : ℚ) * D + M = 60 * d + m + 1 := by linarith
+        exact_mod_cast this
+      · right
+        have : (60 : ℚ) * D + M = 60 * d + m + 1 - 21600 := by linarith
+        exact_mod_cast this
+    have hM : M = (m + 1) % 60 := by omega
+    have hD : D = (d + (m + 1) / 60) % 360 := by omega
+    rw [hf, hD, hM, hS]
+
+/-- just below the boundary nothing carries; at the boundary it does -/
+example : dms_fields (10 + 59.94 / 3600) 1 = (10, 0, 59.9, 1) ∧ dms_fields (10 + 59.96 / 3600) 1 = (10, 1, 0, 1) ∧
+    proundn 59.96 1 = 60 := by decide +kernel
+
 end Pymeeus.C04
